@@ -344,17 +344,38 @@ func c18Pings(in Fields) Fields {
 	cfg.Flood = true
 	cfg.PingFreq = time.Duration(freq)
 	conn := client.Client(cfg)
-	errc := make(chan error, 1)
-	go func() { errc <- conn.Connect() }()
-	var srv net.Conn
-	select {
-	case srv = <-ms.Conns:
-	case <-time.After(10 * time.Second):
-		return F("<<NO-CONNECT>>")
+	// optional 4th field: number of earlier connections of the SAME client (each registered,
+	// then closed) before the measured one: keep-alive belongs to every connection
+	rounds := 0
+	if len(in) > 3 {
+		rounds = in.I(3)
 	}
-	start := time.Now()
-	if err := <-errc; err != nil {
-		return F("<<CONNECT-ERROR>>", err.Error())
+	var srv net.Conn
+	var start time.Time
+	for k := 0; k <= rounds; k++ {
+		errc := make(chan error, 1)
+		go func() { errc <- conn.Connect() }()
+		select {
+		case srv = <-ms.Conns:
+		case <-time.After(10 * time.Second):
+			return F("<<NO-CONNECT>>")
+		}
+		start = time.Now()
+		if err := <-errc; err != nil {
+			return F("<<CONNECT-ERROR>>", err.Error())
+		}
+		if k < rounds {
+			rd := bufio.NewReaderSize(srv, 1<<16)
+			srv.SetReadDeadline(time.Now().Add(10 * time.Second))
+			for {
+				s, err := rd.ReadString('\n')
+				if err != nil || strings.HasPrefix(s, "USER ") {
+					break
+				}
+			}
+			time.Sleep(time.Duration(5*k) * time.Millisecond)
+			c18Close(srv, conn)
+		}
 	}
 	rd := bufio.NewReaderSize(srv, 1<<16)
 	count, wellformed := 0, true
@@ -433,6 +454,9 @@ func c18Token(r *Rand) string {
 		t = "" // empty but present
 	case 1:
 		t = string(r.Bytes(r.Range(300, 480), c18TokAlpha)) // very long
+		if r.Chance(40) { // beyond 512 bytes and beyond bufio's 4096-byte buffers
+			t = string(r.Bytes([]int{498, 503, 504, 505, 506, 510, 512, 600, 1024, 4090, 4100, 6000}[r.Intn(12)], c18TokAlpha))
+		}
 	case 2:
 		t = ":" + string(r.Bytes(r.Intn(6), c18TokAlpha))
 	case 3:
@@ -575,6 +599,8 @@ func c18Gen(r *Rand, tier string, scale int, emit func(in Fields)) {
 		for _, freq := range []int64{0, -1, -int64(time.Second), int64(30 * time.Millisecond), int64(45 * time.Millisecond)} {
 			ins = append(ins, F("pings", freq, window+i)) // +i keeps the inputs distinct
 		}
+		// the measured connection is the client's second or third one
+		ins = append(ins, F("pings", int64(30*time.Millisecond), window+i, 1+i%2), F("pings", int64(0), window+i, 1))
 	}
 	// parallel execution (own client and socket per case), emitted in order
 	workers := runtime.NumCPU()
